@@ -950,6 +950,15 @@ def steps_for(ds, kind, level, fresh=None, depth=1):
             out.append(('annotate_globals', name, f))
         for name, f in applicable(cat, row_fields, ('agg',)):
             out.append(('aggregate', name, f))
+        if level == 'full' and depth == 1:
+            # explode of NESTED fields (array / set inside a struct field, one and two struct levels deep), with and without a
+            # top-level field that shares the leaf's name, optionally followed by a use of the exploded field; name= too
+            for variant in ('arr1', 'set1', 'arr2', 'set2'):
+                for clash in (False, True):
+                    out.append(('explode_nested', variant, clash, 'none'))
+            out += [('explode_nested', 'arr1', False, 'annotate'), ('explode_nested', 'arr2', True, 'select'),
+                    ('explode_nested', 'set1', True, 'annotate'), ('explode_nested', 'arr1', False, 'name'),
+                    ('explode_top_named',)]
         structural = [('group_by_agg', all_row_fields[-1][0]), ('join_self',), ('flatten',)]
         if level != 'mini':
             structural += [('select_globals_none',), ('add_index',), ('union_self',), ('index_self',), ('to_matrix_like',),
@@ -1026,6 +1035,12 @@ def steps_for(ds, kind, level, fresh=None, depth=1):
             out.append(('aggregate_cols', name, f))
         for f, _ in entry_fields + [(x, None) for x, _ in row_fields if x not in ds.row_key] + [(x, None) for x, _ in col_fields if x not in ds.col_key]:
             out.append(('drop', f))
+        if level == 'full' and depth == 1:
+            for axis in ('rows', 'cols'):
+                for variant in ('arr1', 'set1', 'arr2', 'set2'):
+                    for clash in (False, True):
+                        out.append(('mt_explode_nested', axis, variant, clash, 'none'))
+                out += [('mt_explode_nested', axis, 'arr1', False, 'annotate'), ('mt_explode_nested', axis, 'arr2', True, 'select')]
         out += [('rows',), ('cols',), ('entries',), ('localize_entries',), ('key_rows_by_none',), ('group_rows_by_agg',)]
         if level != 'mini':
             out += [('transmute_entries',), ('add_row_index',), ('add_col_index',), ('unfilter_entries',), ('make_table',),
@@ -1047,6 +1062,20 @@ def _tmpl(name):
         if t[0] == name:
             return t
     raise KeyError(name)
+
+
+def _nested_field(hl, variant, k):
+    """(struct expression holding an array / set one or two struct levels deep, path to the leaf); k: an int32 expression"""
+    coll = hl.array([k, k + 1]) if variant.startswith('arr') else hl.set([k, k + 1])
+    if variant.endswith('1'):
+        return hl.struct(q='x', a=coll, z=1.5), ('a',)
+    return hl.struct(z='q', u=hl.struct(w=1, a=coll)), ('u', 'a')
+
+
+def _dig(e, path):
+    for p in path:
+        e = e[p]
+    return e
 
 
 def apply_step(acc, ds, kind, step, depth, prog):
@@ -1091,6 +1120,26 @@ def apply_step(acc, ds, kind, step, depth, prog):
             return new, 'ht'
         if op == 'to_matrix_like':
             new = ds.annotate(**{nm: hl.range(2)}).explode(nm)
+        elif op == 'explode_nested':
+            _, variant, clash, use = step
+            k = hl.int32(hl.len(hl.str(ds[list(ds.row)[0]])))
+            st, path = _nested_field(hl, variant, k)
+            t = ds.annotate(ns=st, a='top-level field with the leaf\'s name') if clash else ds.annotate(ns=st)
+            check_table(acc, t, prog, op + ':annotate')
+            new = t.explode(_dig(t.ns, path), name='renamed') if use == 'name' else t.explode(_dig(t.ns, path))
+            if use == 'annotate':
+                check_table(acc, new, prog, op + ':explode')
+                e = _dig(new.ns, path) + 1
+                check_expr(acc, e, new, 'ht', 'row', prog, 'use_exploded_nested')
+                new = new.annotate(y=e)
+            elif use == 'select':
+                check_table(acc, new, prog, op + ':explode')
+                e = hl.struct(v=_dig(new.ns, path), w=new.a)
+                check_expr(acc, e, new, 'ht', 'row', prog, 'use_exploded_nested')
+                new = new.select(y=e)
+        elif op == 'explode_top_named':
+            t = ds.annotate(xs_=hl.array([1, 2]))
+            new = t.explode('xs_', name='renamed')
         elif op == 'join_aux':
             new = ds.join(lookup_tables(hl)[step[1]], how=step[2])
         elif op == 'join_rekeyed':
@@ -1192,6 +1241,24 @@ def apply_step(acc, ds, kind, step, depth, prog):
         else:
             new = ds.annotate_globals(**{nm: e})
             check_mt(acc, new, prog, op, (nm, e, 'global'))
+        return new, 'mt'
+    if op == 'mt_explode_nested':
+        _, axis, variant, clash, use = step
+        kf = ds.row_idx if axis == 'rows' else ds.col_idx
+        st, path = _nested_field(hl, variant, kf)
+        ann = ds.annotate_rows if axis == 'rows' else ds.annotate_cols
+        t = ann(ns=st, a='top-level field with the leaf\'s name') if clash else ann(ns=st)
+        check_mt(acc, t, prog, op + ':annotate')
+        new = t.explode_rows(_dig(t.ns, path)) if axis == 'rows' else t.explode_cols(_dig(t.ns, path))
+        if use != 'none':
+            check_mt(acc, new, prog, op + ':explode')
+            e = _dig(new.ns, path) + 1 if use == 'annotate' else hl.struct(v=_dig(new.ns, path), w=new.a)
+            check_expr(acc, e, new, 'mt', 'row' if axis == 'rows' else 'col', prog, 'use_exploded_nested')
+            if use == 'annotate':
+                new = new.annotate_rows(y=e) if axis == 'rows' else new.annotate_cols(y=e)
+            else:
+                new = new.select_rows(y=e) if axis == 'rows' else new.select_cols(y=e)
+        check_mt(acc, new, prog, op)
         return new, 'mt'
     to_table = {
         'rows': lambda: ds.rows(), 'cols': lambda: ds.cols(), 'entries': lambda: ds.entries(),
@@ -1520,7 +1587,8 @@ def check(tier, seed, procs):
                         acc.inc('expansions_skipped_same_schema')
                         continue
                     seen.add(sig)
-                is_join = len(step) > 1 and isinstance(step[1], str) and step[1].startswith(('j_', 'jb_'))
+                is_join = (len(step) > 1 and isinstance(step[1], str) and step[1].startswith(('j_', 'jb_'))) \
+                    or step[0] in ('explode_nested', 'mt_explode_nested', 'explode_top_named')
                 jobs.append((i, 'q2j' if plan_name == 'q2' and is_join else plan_name, step))
             reps_info[f'{name}:{plan_name}'] = len([j for j in jobs if j[0] == i and j[1] in (plan_name, plan_name + 'j')])
     ordered = par.rotate(jobs, seed)
